@@ -650,6 +650,28 @@ def fam_big_params(g, prefix, which=("ops", "retry")):
             out.append(case("%s-%d" % (prefix, i), [["counter", "k"], ["sub", ["retry", b, ["map", "inc", ["flaky", "0", "k", [e_(5)], [n_(2), e_(6)], [C_]]]], NOREACT]])); i += 1
     return out
 
+def fam_reentrant_closures(g, prefix):
+    """C07: the closures GIVEN TO OPERATORS (predicates, mapping functions) re-enter the library: the first time they are
+    called they push an item into the subject that feeds the operator.  Judged by the outcome of the real run only
+    (the model's functions are pure)."""
+    out = []
+    i = 0
+    preds = [["lt", "3"], ["gt", "1"], "tt", "ff", "even"]
+    for v in ("0", "2", "5"):
+        for pr in preds:
+            P = ["push", "a", v, pr]
+            for mk in (lambda s: ["filter", P, s], lambda s: ["take_while", P, s], lambda s: ["skip_while", P, s], lambda s: ["all", P, s],
+                       lambda s: ["take", "2", ["skip_while", P, s]], lambda s: ["skip_while", P, ["map", "inc", s]]):
+                steps = [["subject", "a", "plain"], ["sub", mk(["ref", "a"]), NOREACT], ["hnext", "a", "1"], ["hnext", "a", "4"], ["hnext", "a", "2"], ["hcomplete", "a"]]
+                out.append(case("%s-%d" % (prefix, i), steps)); i += 1
+        for fn in ("inc", "dbl", ["add", "2"], ["mod", "2"]):
+            F = ["fpush", "a", v, fn]
+            for mk in (lambda s: ["map", F, s], lambda s: ["group_by", F, s], lambda s: ["distinct_until_changed", ["map", F, s]], lambda s: ["scan", "add", ["map", F, s]],
+                       lambda s: ["take", "2", ["map", F, s]], lambda s: ["buffer_with_count", "2", ["map", F, s]]):
+                steps = [["subject", "a", "plain"], ["sub", mk(["ref", "a"]), NOREACT], ["hnext", "a", "1"], ["hnext", "a", "4"], ["hcomplete", "a"]]
+                out.append(case("%s-%d" % (prefix, i), steps)); i += 1
+    return out
+
 def fam_reentrant_values(g, prefix, draws=2):
     """single-source operators over a hot subject whose subscriber pushes a further item into (or ends) that subject from
     INSIDE its next callback: the operator's state (flags, counters, last value, latest key) must already be updated
@@ -707,6 +729,17 @@ def fam_teardown(g, prefix, n_random):
         # hot source: the subject must not hold the observer afterwards
         steps = [["subject", "a", "plain"], ["sub", mk(["ref", "a"]), NOREACT]] + [["hnext", "a", str(v)] for v in (1, 2, 3, 0, 1)]
         add(steps)
+    # EVERY single-source operator between a long / endless synchronous source and a downstream that has all it needs
+    allops = dict(g.ops_int()); allops.update(g.ops_agnostic()) if hasattr(g, "ops_agnostic") else None
+    for name in sorted(allops):
+        for ender in (lambda q: ["take", "1", q], lambda q: ["first", q], lambda q: ["take", "2", q]):
+            g.tag = 0
+            add([["sub", ender(allops[name](g.cold(long))), NOREACT]])
+        # an endless source only under operators that hand every item on (an aggregate over `repeat` never returns, by design)
+        if name in ("map", "tap", "map_to_any", "timestamp", "scan", "start_with", "default_if_empty", "demat_mat", "skip"):
+            for ender in (lambda q: ["take", "1", q], lambda q: ["first", q]):
+                g.tag = 0
+                add([["sub", ender(allops[name](["repeat", "1"])), NOREACT]])
     # the downstream ends while an operator is still handing over its own prefix: the source behind it must not stay subscribed
     for ender in (lambda q: ["take", "1", q], lambda q: ["take_while", "ff", q], lambda q: ["take", "2", q]):
         for pre in (lambda q: ["start_with", ["l", "7", "8"], q], lambda q: ["merge", ["from_iter", "7", "8"], q],
@@ -779,6 +812,11 @@ def fam_resubscribe(g, prefix, n_random):
                        lambda s: ["on_error_resume_next", ["rs_just", "8"], s], lambda s: ["retry", b, ["map", "inc", s]]):
                 g.tag = 0
                 out.append(case("%s-%d" % (prefix, i), [["def", "x", mk(g.cold(evs))]] + [["sub", ["ref", "x"], NOREACT]] * 3)); i += 1
+    # a recovery operator that GAVE UP in an earlier subscription (predicate said no, budget exhausted) decides afresh in the next
+    for rec in (lambda s: ["retry_when", ["eq", "5"], s], lambda s: ["retry_when", ["lt", "6"], s], lambda s: ["retry", "2", s],
+                lambda s: ["on_error_resume_next", ["rs_just", "8"], ["retry_when", ["eq", "5"], s]], lambda s: ["map", "inc", ["retry_when", ["eq", "5"], s]]):
+        for scripts in ([[e_(6)], [n_(1), e_(5)], [n_(2), C_]], [[n_(1), e_(6)], [e_(5)], [e_(5)], [n_(3), C_]], [[e_(6)], [e_(6)], [n_(1), e_(5)], [n_(2), C_]]):
+            out.append(case("%s-%d" % (prefix, i), [["counter", "k"], ["def", "x", rec(["flaky", "0", "k"] + scripts)]] + [["sub", ["ref", "x"], NOREACT]] * 3)); i += 1
     # under retry: each attempt is a resubscription of the inner pipeline
     for name in sorted(g.ops_int()):
         g.tag = 0
